@@ -16,6 +16,7 @@ import (
 	tpb "github.com/fullstorydev/grpchan/grpchantesting"
 	"google.golang.org/grpc"
 	"google.golang.org/grpc/codes"
+	"google.golang.org/grpc/metadata"
 	"google.golang.org/grpc/status"
 
 	"verifharness/core"
@@ -291,6 +292,96 @@ func checkC08(e *core.Env) {
 			if _, ran := run.HandlerReturn(); parked && ran && out.Seen && out.OK {
 				e.Violate("inproc/responses/late-receive/"+variant+"/success", fmt.Sprintf("the caller's context had ended and the handler had gone on (%s) before the caller asked for the response: the client reported success with the first response", variant), witness(run))
 				return
+			}
+		}
+	})
+
+	// more than one response on a single-response method, with the transport's reader placed: it has read the
+	// second response and handed it over, and is held at the next frame (the OK trailer) until the client's receive
+	// has reported the failure; it then goes on and reads the trailer. Whatever the client asks afterwards, the
+	// call stays failed: no later receive reports a clean end or hands out a message.
+	installHooks()
+	e.Cases("surplus-response-then-trailer", e.N(20, 200), func(i int, r *rand.Rand) {
+		nresp := pick(r, 2, 2, 2, 3)
+		var msgs []*tpb.Message
+		for k := 0; k < nresp; k++ {
+			msgs = append(msgs, genMsg(r, fmt.Sprintf("surplus-%d-%d", i, k), false))
+		}
+		tr := &httpgrpc.HttpTrailer{}
+		if r.Intn(2) == 0 {
+			tr.Metadata = map[string]*httpgrpc.TrailerValues{"t": {Values: []string{"v"}}}
+		}
+		body := encodeStream(msgs, tr).bytes
+		ch := &httpgrpc.Channel{BaseURL: mustURL("http://surplus.test/"), Transport: rtFunc(func(rq *http.Request) (*http.Response, error) {
+			go io.Copy(io.Discard, rq.Body)
+			h := http.Header{}
+			h.Set("Content-Type", httpgrpc.StreamRpcContentType_V1)
+			return &http.Response{StatusCode: 200, Header: h, Body: io.NopCloser(bytes.NewReader(body)), Request: rq, ProtoMajor: 1, ProtoMinor: 1}, nil
+		})}
+		id := fmt.Sprintf("surplus-%d-%d", i, r.Int63())
+		plan := newHookPlan()
+		plan.parkPt, plan.parkNth = "http.stream.frame", 3
+		hookPlans.Store(id, plan)
+		defer hookPlans.Delete(id)
+		defer plan.Release()
+		ctx, cancel := context.WithCancel(metadata.AppendToOutgoingContext(context.Background(), runKey, id))
+		defer cancel()
+		type res struct {
+			first error
+			later []error
+			pan   string
+		}
+		out := make(chan res, 1)
+		go func() {
+			var rs res
+			rs.pan = guard(func() {
+				st, err := ch.NewStream(ctx, ClientStream.StreamDesc(), ClientStream.Method())
+				if err != nil {
+					rs.first = err
+					return
+				}
+				st.SendMsg(&tpb.Message{})
+				st.CloseSend()
+				rs.first = st.RecvMsg(new(tpb.Message))
+				// the reader goes on only now
+				plan.Release()
+				for k := 0; k < 4; k++ {
+					time.Sleep(time.Duration(k) * time.Millisecond)
+					rs.later = append(rs.later, st.RecvMsg(new(tpb.Message)))
+				}
+				st.Trailer()
+			})
+			out <- rs
+		}()
+		var rs res
+		select {
+		case rs = <-out:
+		case <-time.After(watchdog):
+			e.Inconclusive("C08 surplus-response-then-trailer: watchdog")
+			return
+		}
+		placed := false
+		select {
+		case <-plan.parked:
+			placed = true
+		default:
+		}
+		e.Eval(fmt.Sprintf("surplus-then-trailer|n=%d|trailer-md=%v", nresp, len(tr.Metadata) > 0), placed)
+		if placed {
+			e.Count("reader_held_at_trailer_frame", 1)
+		}
+		w := map[string]any{"responses": nresp, "first_receive": fmt.Sprint(rs.first), "later_receives": fmt.Sprint(rs.later), "reader_held_at_trailer": placed}
+		switch {
+		case rs.pan != "":
+			e.Violate("http/responses/surplus-then-trailer/panic", trunc(rs.pan, 400), w)
+		case rs.first == nil:
+			e.Violate("http/responses/surplus-then-trailer/success", fmt.Sprintf("the reply carried %d responses for a single-response method and the receive reported success", nresp), w)
+		default:
+			for k, err := range rs.later {
+				if err == nil || err == io.EOF {
+					e.Violate("http/responses/surplus-then-trailer/later-receive", fmt.Sprintf("the receive had failed the call (%v: %d responses on a single-response method); once the transport had read the OK trailer, receive #%d after it returned %v", rs.first, nresp, k+1, err), w)
+					break
+				}
 			}
 		}
 	})
